@@ -149,6 +149,10 @@ func (d *Dialer[T]) Dial(ctx context.Context, network, addr string, tc *tls.Conf
 				var err error
 				if host, _, err = net.SplitHostPort(a); err != nil {
 					host = a
+					// An IPv6 literal without a port, e.g. [2001:db8::1].
+					if n := len(host); n > 2 && host[0] == '[' && host[n-1] == ']' {
+						host = host[1 : n-1]
+					}
 				}
 			}
 			result, err := resolver.Resolve(ctx, a)
